@@ -328,6 +328,48 @@ def order_case(case):
     return out, ("order", case["n"])
 
 
+def reregister_case(case):
+    """a key that is registered again (model development: edit, reload)
+    must serve the *new* function through the default wrappers"""
+    from nanite.model import logic
+    out = []
+    mods = []
+    for factor in case["factors"]:
+        src = ORDER_SENSITIVE_SRC.replace("verif_order", "verif_rereg") \
+            .replace("out[idx:] = E *", f"out[idx:] = {factor} * E *")
+        mod = types.ModuleType(f"verif_c13_rereg_{factor}")
+        exec(compile(src, mod.__name__, "exec"), mod.__dict__)
+        mods.append(mod)
+    x = np.linspace(5e-7, -8e-7, 40)
+    try:
+        for i, (mod, factor) in enumerate(zip(mods, case["factors"])):
+            if case["deregister"] and i > 0:
+                logic.deregister_model(logic.models_available["verif_rereg"])
+            md = logic.register_model(mod)
+            P = md.get_parameter_defaults()
+            ref = np.where(-x > 0, factor * 3e3 * np.sqrt(10e-6)
+                           * np.clip(-x, 0, None) ** 1.5, 0.0)
+            for name, xx, rr in (("descending", x, ref),
+                                 ("ascending", x[::-1].copy(), ref[::-1])):
+                for which, md_i in (("returned", md), (
+                        "registry", logic.models_available["verif_rereg"])):
+                    F = md_i.model(P, xx)
+                    r = md_i.residual(P, xx, rr.copy(), 0)
+                    if not np.allclose(F, rr, rtol=1e-12, atol=0) or \
+                            np.max(np.abs(r)) > 1e-12 * np.max(np.abs(rr)):
+                        out.append(V(
+                            PROP, "orientation", site="re-registered-key",
+                            witness=f"registration#{i + 1}:{which}:{name}",
+                            detail="the model registered last under this "
+                            "key does not evaluate its own function "
+                            f"(factor {factor}): max dev "
+                            f"{np.max(np.abs(F - rr)):.3e}", case=case,
+                            kind="rereg"))
+    finally:
+        logic.models_available.pop("verif_rereg", None)
+    return out, ("rereg", len(case["factors"]))
+
+
 def plugin_child():
     """contract of the compiled plug-in, run in a child process"""
     import mc
@@ -402,6 +444,8 @@ def replay(doc):
         return contract_case(doc["case"])[0]
     if doc.get("kind") == "order":
         return order_case(doc["case"])[0]
+    if doc.get("kind") == "rereg":
+        return reregister_case(doc["case"])[0]
     rep = Report(PROP, "quick", LEVEL)
     plugin_part(rep)
     return rep.violations
@@ -416,6 +460,11 @@ def run(tier):
           for cp in (0.0, 2e-7, -1e-7) for n in (30, 101, 400)]
     cl2 = grid.run_cases(rep, __name__, "order_case", oc, chunk=2,
                          label="order_cells")
+    rc = [{"kind": "rereg", "factors": list(f), "deregister": d}
+          for f in ((1.0, 2.0), (2.0, 1.0), (1.0, 2.0, 3.0), (1.0, 1.0))
+          for d in (False, True)]
+    grid.run_cases(rep, __name__, "reregister_case", rc, chunk=1,
+                   label="reregistration_cells")
     plugin_part(rep)
     rep.set("models", sorted({k[1] for k in cl}))
     rep.set("distinct_nontrivial", len(cs) + len(oc))
